@@ -259,6 +259,23 @@ def run(ctx):
         bad = [(n, m) for n, v, m in pi if m and m != 'LOG_' + n]
         chk.ob('T3', 'name-is-macro-suffix[%s]' % kind, not bad, TI.where(), TI.name,
                'name/macro mismatch: %s' % bad, how='every name X maps to LOG_X')
+        # nothing but the table's values (and the not-found value) comes out of ...ToInt: a value computed from the text
+        # (a decimal code, a shifted number) would be an accepted spelling the documentation does not have
+        leaves, unknown = _returned_leaves(prog, TI)
+        tvals = {v for n, v in si}
+        computed = [e for e in leaves if _from_text_conversion(TI, e)]
+        stray = [e for e in leaves if 'v' in strip(e).d and strip(e)['v'] >= 0 and strip(e)['v'] not in tvals]
+        if not computed and not stray and unknown:
+            raise AnalysisBroken('%s returns %s: neither a constant, nor a table field, nor a number converted from the '
+                                 'text' % (TI.name, render(unknown[0])[:60]))
+        badv = (computed or stray or [None])[0]
+        chk.ob('T3', 'only-table-values-returned[%s]' % kind, not computed and not stray, (badv or TI).where(), TI.name,
+               '%s can return %s, which is %s: a text that is none of the documented names is accepted and sets a %s the '
+               'documentation does not have, instead of leaving the default in force' % (
+                   TI.name, render(badv)[:50] if badv is not None else '',
+                   'computed from a number converted from the text' if computed else 'not a value of the name table',
+                   kind.lower()),
+               how='returns: %d table value(s)/field read(s), and the not-found value' % len(leaves))
         # every value of the name table is accepted by the option parser (not only "most")
         PV = prog.func('snoopy_configfile_parseValue_syslog_' + kind.lower())
         if PV is not None:
@@ -650,6 +667,80 @@ def comment_before_trim_rule(ctx, prog):
                    how='%s precedes every lskip of the value' % render(sc)[:50])
     if n == 0:
         raise AnalysisBroken('no inline-comment scan (find_chars_or_comment(value, NULL)) found in the INI parser')
+
+
+def _returned_leaves(prog, F, depth=0):
+    """(expressions a function can return, followed through result variables, conditional expressions and the
+    program functions whose result is returned as it is; expressions of another kind)"""
+    leaves, unknown = [], []
+    seen = set()
+
+    def visit(e, f, d):
+        e = strip(e)
+        if e is None:
+            return
+        if e.k == 'ConditionalOperator':
+            visit(e.ch[1], f, d)
+            visit(e.ch[2], f, d)
+            return
+        if e.k == 'DeclRefExpr' and e['ref'].get('kind') == 'var' and not e['ref'].get('staticStorage'):
+            key = (f.key, e['ref']['id'])
+            if key in seen:
+                return
+            seen.add(key)
+            defs = def_exprs(f, e['ref']['id'])
+            if not defs:
+                unknown.append(e)
+            for x in defs:
+                visit(x, f, d)
+            return
+        if e.k == 'CallExpr' and e.get('callee') and prog.func(e['callee'], f.tu) is not None and d < 2:
+            t = prog.func(e['callee'], f.tu)
+            for r in C.return_nodes(t):
+                if r.ch:
+                    visit(r.ch[0], t, d + 1)
+            return
+        if 'v' in e.d or e.k in ('MemberExpr', 'ArraySubscriptExpr'):
+            leaves.append(e)
+            return
+        if e.k == 'UnaryOperator' and e.get('op') == '-' and 'v' in strip(e.ch[0]).d:
+            leaves.append(e)
+            return
+        leaves.append(e) if _mentions_conversion(f, e) else unknown.append(e)
+    for r in C.return_nodes(F):
+        if r.ch:
+            visit(r.ch[0], F, depth)
+    return leaves, unknown
+
+
+TEXT_CONVERSIONS = {'strtol', 'strtoul', 'strtoll', 'strtoull', 'atoi', 'atol', 'atoll', 'sscanf', 'strtoimax', 'strtoumax'}
+
+
+def _mentions_conversion(f, e, depth=0):
+    """the expression is (built from) the result of a text-to-number conversion, directly, through locals, or through a
+    file-local helper that returns one"""
+    if depth > 4:
+        return False
+    for x in e.walk():
+        if x.k == 'CallExpr' and x.get('callee') in TEXT_CONVERSIONS:
+            return True
+        if x.k == 'CallExpr' and x.get('callee') and PROG[0] is not None:
+            t = PROG[0].func(x['callee'], f.tu)
+            if t is not None and t.internal and any(
+                    r.ch and _mentions_conversion(t, r.ch[0], depth + 1) for r in C.return_nodes(t)):
+                return True
+        if x.k == 'DeclRefExpr' and x['ref'].get('kind') == 'var':
+            for d in def_exprs(f, x['ref']['id']):
+                if d is not e and _mentions_conversion(f, d, depth + 1):
+                    return True
+    return False
+
+
+def _from_text_conversion(f, e):
+    s_ = strip(e)
+    if s_ is None or 'v' in s_.d or s_.k in ('MemberExpr', 'ArraySubscriptExpr'):
+        return False
+    return _mentions_conversion(f, s_)
 
 
 def _quote_rule_in(chk, P, n0):
